@@ -6,6 +6,7 @@ pub mod textchk;
 pub mod valsem;
 pub mod c18;
 pub mod c19;
+pub mod c20;
 pub mod c21;
 pub mod c22;
 pub mod c23;
@@ -20,9 +21,14 @@ pub fn registry() -> Vec<CheckDef> {
     v.extend(textchk::defs());
     v.push(c18::def());
     v.push(c19::def());
+    v.push(c20::def());
     v.push(c21::def());
     v.push(c22::def());
     v.push(c23::def());
     v.push(c28::def());
     v
+}
+
+pub fn textchk_seed_texts(max: usize) -> Vec<(String, String)> {
+    textchk::seed_texts(max)
 }
